@@ -463,6 +463,9 @@ def run(chk):
     from . import C08
     C08.d2_sort_table(chk, prog)   # the sort both tables go through: (chromosome, start, end), ties in input order
     d9(chk, prog)
+    chk.clause("CLI", "the `fix` command line: the three files in their roles and each --no-* switch reach do_fix as given")
+    from .. import cliglue
+    cliglue.check_fix(chk, prog)
 
 
 _F = "cnvlib/fix.py"
